@@ -940,6 +940,43 @@ pub fn gen(tier: &str, seed: u64) -> Vec<String> {
         h.push(HEv::Tick(50));
         lines.push(mk_line("LAY", false, cfg, &h));
     }
+    // [t7:chv2-wide] chords with as many participants as the run-time lists hold (16), one fewer and
+    // more (17, 20): whatever the parser accepts has to fire when all its keys are pressed inside the
+    // timeout - one key per tick, or all between two ticks - and be released per its release rule
+    {
+        let names = ["a", "b", "c", "d", "e", "f", "g", "h", "i", "j", "k", "l", "m", "n", "o", "p", "q", "r", "s", "t"];
+        for n in [15usize, 16, 17, 20] {
+            for rel in ["all-released", "first-release"] {
+                let ks = &names[..n];
+                let cfg = format!(
+                    "(defcfg concurrent-tap-hold yes)\n(defsrc {0})\n(deflayer l0 {0})\n(defchordsv2 ({0}) 7 500 {rel} ())\n",
+                    ks.join(" ")
+                );
+                for burst in [false, true] {
+                    for rev in [false, true] {
+                        let mut h = vec![];
+                        for k in ks {
+                            h.push(HEv::Press(0, crate::cfggen::code(k)));
+                            if !burst {
+                                h.push(HEv::Tick(1));
+                            }
+                        }
+                        h.push(HEv::Tick(600));
+                        let mut order: Vec<&str> = ks.to_vec();
+                        if rev {
+                            order.reverse();
+                        }
+                        for k in order {
+                            h.push(HEv::Release(0, crate::cfggen::code(k)));
+                            h.push(HEv::Tick(1));
+                        }
+                        h.push(HEv::Tick(300));
+                        lines.push(mk_line("LAY", false, &cfg, &h));
+                    }
+                }
+            }
+        }
+    }
     let n_rand2 = if thorough { 15000 } else { 1200 };
     for i in 0..n_rand2 {
         let t = loop {
